@@ -136,6 +136,15 @@ def real_case(case, acc):
         r, exc, dt = outcome(c, lambda: call(c, entry, pats, 0.15))
         acc.count('marker_outcomes')
         judge(v, c, r, exc, TIMEOUT, listed, 1, T(' world'), 'silent peer, timeout 0.15')
+        # 2b. an empty pattern list ("just wait"): the time runs out -> exactly TIMEOUT, whatever it takes to say so
+        r, exc, dt = outcome(c, lambda: call(c, entry, [], 0.05))
+        acc.count('marker_outcomes')
+        acc.count('empty_pattern_lists')
+        if type(exc) is not TIMEOUT:
+            v('foreign-exception' if exc is not None and not isinstance(exc, (EOF, TIMEOUT)) else 'wrong-exception-class',
+              'empty pattern list, silent peer, timeout 0.05: %r %r' % (r, exc))
+        elif c.before != T(' world') or c.after is not TIMEOUT:
+            v('before-not-all-pending', 'empty pattern list: before=%r after=%r' % (c.before, c.after))
         # 3. timeout 0 with nothing readable
         r, exc, dt = outcome(c, lambda: call(c, entry, pats, 0))
         acc.count('marker_outcomes')
@@ -171,6 +180,12 @@ def real_case(case, acc):
             judge(v, c, r, exc, EOF, listed, 2, T(''), 'call #%d after EOF' % (k + 2))
             if dt > 1.0:
                 v('call-after-eof-blocks', 'call #%d after EOF took %.2fs' % (k + 2, dt))
+        # 6. and with an empty pattern list after the end of the stream: exactly EOF
+        r, exc, dt = outcome(c, lambda: call(c, entry, [], 5))
+        acc.count('empty_pattern_lists')
+        if type(exc) is not EOF:
+            v('foreign-exception' if exc is not None and not isinstance(exc, (EOF, TIMEOUT)) else 'wrong-exception-class',
+              'empty pattern list after EOF: %r %r' % (r, exc))
         if listed:
             acc.count('marker_listed')
         else:
